@@ -110,6 +110,22 @@ def bracket_patterns(maxtok: int = 4):
             yield '[' + ''.join(t) + ']'
 
 
+ESC_RANGE_TOKS = ['a', '0', '-', '\\z', '\\-', '[:alpha:]', '\\b', ']']
+
+
+def bracket_escape_patterns(maxtok: int = 6, ntoks: int = 6):
+    """bracket bodies built from members spelled as escapes, hyphens and POSIX classes: the range
+    bookkeeping of `_sequence` (escape_hyphen / end_range) with range ends that are two characters
+    long (defect D29 lived at `X-\\Y-ZW`)"""
+    toks = ESC_RANGE_TOKS[:ntoks]
+    for L in range(2, maxtok + 1):
+        for t in itertools.product(toks, repeat=L):
+            if '-' in t and any(x.startswith('\\') for x in t):
+                yield '[' + ''.join(t) + ']'
+                if L <= 4:
+                    yield '[!' + ''.join(t) + ']'
+
+
 def random_bracket(R, maxtok: int = 7) -> str:
     return '[' + ''.join(R.choice(BRACKET_TOKS) for _ in range(R.randint(1, maxtok))) + ']'
 
